@@ -23,13 +23,17 @@ import asynkit.coroutine as _acoro
 from . import core
 
 PROP = "C04"
-LEAN_TARGETS = ["Asynkit.Props.C04"]
-PROPS_FILES = ["Asynkit/Props/C04.lean"]
+LEAN_TARGETS = ["Asynkit.Props.C04", "Asynkit.Lemmas.GenEqC04"]
+PROPS_FILES = ["Asynkit/Props/C04.lean", "Asynkit/Lemmas/GenEqC04.lean"]
 DRIVERS = ["Ctx"]
 TRUSTED = [
     "Lean 4.33 kernel; axioms ⊆ {propext, Classical.choice, Quot.sound} (audited per theorem each run)",
     "hand-written model Asynkit/Model/Ctx.lean of CoroStart/coro_await/coro_eager (src/asynkit/coroutine.py), "
     "tied to the code by the differential correspondence of this run (lean/Drivers/Ctx.lean)",
+    "translator/ctxresume2lean.py: CoroStart._resume (the test on self.context, context.run(method,*args) vs "
+    "method(*args)) is re-translated on every run, and for every entry point of CoroStart it is recorded whether each "
+    "self.coro.send/throw/close goes through self._resume; coro_eager's context=copy_context(), coro_await's "
+    "context=context.  Lemmas/GenEqC04.lean proves resume = inCtx true, wraps = repaired (the model the theorems are about)",
     "modelled, not verified: contextvars.Context.run (mapping swapped in, writes land in that Context, caller's "
     "context restored), copy_context(), the coroutine-object envelope and generator semantics of __await__ "
     "(PEP 479, GeneratorExit handling), PEP-380 delegation of the athrow()/aclose()/coro_await wrappers, "
